@@ -16,12 +16,14 @@ import (
 	"encoding/json"
 	"flag"
 	"fmt"
+	"io"
 	"os"
 	"path/filepath"
 	"strings"
 	"unicode/utf8"
 
 	"github.com/moov-io/ach"
+	"golang.org/x/net/html/charset"
 
 	"verifharness/internal/gen"
 	"verifharness/internal/hx"
@@ -121,6 +123,25 @@ func observe(text string, sniff bool) (o obs) {
 	o.timed = f.Header.FileCreationTime != ""
 	o.lines = strings.Split(strings.TrimSuffix(out, "\n"), "\n")
 	return o
+}
+
+// decoded: what charset.NewReader (the first thing ach.NewReader does) makes of a text that is not UTF-8 — the
+// bytes the framing then sees.  The same call as in NewReaderWithContentType(r, "text/plain").
+func decoded(text string) (out string, ok bool) {
+	defer func() {
+		if recover() != nil {
+			ok = false
+		}
+	}()
+	rr, err := charset.NewReader(strings.NewReader(text), "text/plain")
+	if err != nil || rr == nil {
+		return "", false
+	}
+	b, err := io.ReadAll(rr)
+	if err != nil {
+		return "", false
+	}
+	return string(b), true
 }
 
 // clock: what FileCreationTimeField() wrote when the header holds no creation time ("-" otherwise).
@@ -418,18 +439,28 @@ func run(args []string) {
 	sum := summary{Kind: "summary", Dist: map[string]int{}, Rule: "texts: the witnesses of corpus/C02/reader-domain.json, the writer's output of generated files (every SEC, IAT, ADV, returns/NOC, non-ASCII; LF / CRLF / no final newline), directed changes of the columns C02_reader_domain talks about, fixtures, random character changes and byte noise; each read by ach.NewReader(...).Read() with default options; when the reader accepts, the returned file is written by ach.NewWriter and the output measured (94 characters of valid UTF-8, blocks of ten, filler, record order); non-trivial = the reader accepted and the writer wrote; distinct by output text"}
 	seen := map[string]bool{}
 	total := 0
+	nonUTF8 := 0
 	emit := func(text, what string) {
+		var o obs
 		if !utf8.ValidString(text) {
-			// the default constructor decodes such a text (windows-1252) before the framing: measured only
-			s := observe(text, true)
-			sum.Dist["not-utf8-sniffed-"+strings.ToLower(s.tag)]++
-			if s.tag == "W" {
-				if key, whatf := physical(s.lines); key != "" {
-					enc(fail{"fail", key, whatf, map[string]any{"source": "reader-domain", "text": hx.Enc(text), "change": what, "sniffed": true}})
-				}
-			}
+			nonUTF8++
 		}
-		o := observe(text, false)
+		if !utf8.ValidString(text) && nonUTF8%2 == 0 {
+			// every other text that is not UTF-8 goes through the default constructor, which decodes it (windows-1252)
+			// before the framing; the model reads the decoded text: C02_reader_domain holds of every byte string, in
+			// particular of what a decoder delivers (C02_reader_domain_decoded)
+			if dt, ok := decoded(text); ok && utf8.ValidString(dt) {
+				o = observe(text, true)
+				text = dt
+				what += " (sniffed character set, decoded)"
+				sum.Dist["not-utf8-decoded-"+strings.ToLower(o.tag)]++
+			} else {
+				sum.Dist["not-utf8-decoder-failed"]++
+				o = observe(text, false)
+			}
+		} else {
+			o = observe(text, false)
+		}
 		total++
 		sum.Evaluations++
 		cases.Printf("T %s %s\n", hx.Enc(text), clock(o))
